@@ -63,7 +63,7 @@ func evaluate(sc *script) verdict {
 
 func diffDetail(v verdict) string {
 	var sb strings.Builder
-	fmt.Fprintf(&sb, "script %s: observation logs differ\n", v.Script)
+	fmt.Fprintf(&sb, "script %s (fake | real):\n", v.Script)
 	n := len(v.Fake)
 	if len(v.Real) > n {
 		n = len(v.Real)
